@@ -13,6 +13,9 @@ from sigma.exceptions import (
     SigmaTransformationError,
 )
 from sigma.types import (
+    SigmaBool,
+    SigmaNull,
+    SigmaNumber,
     SigmaString,
     SigmaType,
     SigmaFieldReference,
@@ -391,7 +394,16 @@ class ValueTransformation(DetectionItemTransformation):
                         # Unlike FieldMappingTransformation (which may add wildcards to values
                         # making round-tripping incorrect), ValueTransformation operates on the
                         # values directly and the new values serve as the serializable original.
-                        r.original_value = r.value.copy()
+                        # This is only correct if the item has no modifiers (they would be applied
+                        # again to the already modified values when the result is parsed) and if
+                        # the values have a plain representation that yields the same type.
+                        if len(r.modifiers) == 0 and all(
+                            type(v) in (SigmaString, SigmaNumber, SigmaBool, SigmaNull)
+                            for v in r.value
+                        ):
+                            r.original_value = r.value.copy()
+                        else:
+                            r.disable_conversion_to_plain()
                     detection.detection_items[i] = r
                     self.processing_item_applied(r)
 
